@@ -20,6 +20,18 @@ for p in props:
         "technique": m.get('technique', 'contract-based deductive verification: weakest-precondition VCs over go/ssa of the real code, discharged by z3/cvc5'),
     })
 na = [{"property_id": i, "reason": meta['not_applicable'].get(i, 'check not built yet at this commit')} for i in allids if i not in claimed]
+def hook_commits():
+    # every /repo commit whose subject starts with "verif hook" (oldest first); falls back to the
+    # recorded list when git is not available
+    import subprocess
+    try:
+        out = subprocess.run(['git', '-C', '/repo', 'log', '--reverse', '--format=%h %s'], capture_output=True, text=True, check=True).stdout
+        cs = [l.split()[0] for l in out.splitlines() if l.split(' ', 1)[1].startswith('verif hook')]
+        return cs or meta['hook_commits']
+    except Exception:
+        return meta['hook_commits']
+
+
 man = {
     "version": 1,
     "setup_cmd": "cd /verif && export GOFLAGS=-mod=mod GOPROXY=off GOSUMDB=off GOTOOLCHAIN=local && mkdir -p bin && (cd govc && go build -o ../bin/govc .) && (cd replay && cp /repo/go.sum . 2>/dev/null; go vet ./... >/dev/null 2>&1; true)",
@@ -27,7 +39,7 @@ man = {
         "guard": "verif",
         "enable": "go build -tags verif ./... (the tag only adds comment-only contracts_verif.go files; govc loads /repo with -tags=verif)",
         "baseline_off_cmd": "cd /repo && GOFLAGS=-mod=mod GOPROXY=off GOSUMDB=off go test -vet=off -count=1 ./...",
-        "source_commits": meta['hook_commits'],
+        "source_commits": hook_commits(),
         "add_only": True,
     },
     "engines": [{"name": "govc", "path": "/verif/govc", "serves_properties": claimed,
